@@ -367,6 +367,12 @@ def stepObjectValue (st : St) (data : Bytes) : Step :=
       | .ok (tape, rest') => .cont { st with tape := tape, state := .key } rest'
       | .error f => Step.fail f
 
+/-- ParseOpen, after the first scalar of a container (tape.rs:842):
+`match data { [b'=' | b'>' | b'<', ..] | [b'!' | b'?', b'=', ..] => Object…, _ => Array… }` -/
+def firstFieldPeek : Bytes → Bool
+  | [] => false
+  | c :: r => decide (c = 61 ∨ c = 62 ∨ c = 60) || (decide (c = 33 ∨ c = 63) && decide (r.head? = some 61))
+
 def stepParseOpen (st : St) (data : Bytes) : Step :=
   match data with
   | [] => .done .panic
@@ -410,19 +416,37 @@ def stepParseOpen (st : St) (data : Bytes) : Step :=
         match skipWs rest' with
         | none => .done (.err .eof)
         | some d2 =>
-          match d2 with
-          | [] => .done .panic
-          | c2 :: _ =>
-            if tape.length < 2 then .done .panic else
-            let ind := tape.length - 2
-            if c2 = 61 ∨ c2 = 62 ∨ c2 = 60 then
-              match setTok tape ind (.object st.parent false) with
-              | none => .done .panic
-              | some tape => .cont { state := .kvs, mixed := false, parent := ind, tape := tape } d2
-            else
-              match setTok tape ind (.array st.parent false) with
-              | none => .done .panic
-              | some tape => .cont { state := .arrayValue, mixed := false, parent := ind, tape := tape } d2
+          if tape.length < 2 then .done .panic else
+          let ind := tape.length - 2
+          if firstFieldPeek d2 then
+            match setTok tape ind (.object st.parent false) with
+            | none => .done .panic
+            | some tape => .cont { state := .kvs, mixed := false, parent := ind, tape := tape } d2
+          else
+            match setTok tape ind (.array st.parent false) with
+            | none => .done .panic
+            | some tape => .cont { state := .arrayValue, mixed := false, parent := ind, tape := tape } d2
+
+/-- the operator arm of ArrayValue (tape.rs:930-985).  `onErr` is what the two
+`InvalidSyntax { offset: self.offset(data) - 1 }` sites produce: the error, or a panic when the
+subtraction overflows (offset 0). -/
+def arrayOpPre (onErr : Res) (st : St) : Except Res (List Tok × Bool) :=
+  if st.mixed then .ok (st.tape, true)
+  else
+    match st.tape.getLast?.bind Tok.asScalar with
+    | some _ =>
+      match insertBeforeLast st.tape .mixedContainer with
+      | some tape => .ok (tape, true)
+      | none => .error .panic
+    | none => .error onErr
+
+def stepArrayOp (onErr : Res) (st : St) (data : Bytes) : Step :=
+  match arrayOpPre onErr st with
+  | .error r => .done r
+  | .ok (tape, mixed) =>
+    match lexOperator false data with
+    | some (o, r) => .cont { st with tape := tape ++ [.operator o], mixed := mixed } r
+    | none => .done onErr
 
 def stepArrayValue (origLen : Nat) (st : St) (data : Bytes) : Step :=
   match data with
@@ -447,22 +471,7 @@ def stepArrayValue (origLen : Nat) (st : St) (data : Bytes) : Step :=
       | .error f => Step.fail f
     else if c = 60 ∨ c = 62 ∨ c = 33 ∨ c = 61 then
       -- `self.offset(data) - 1` in the two error paths overflows at offset 0
-      let offsetOk := decide (0 < origLen - data.length)
-      let pre : Except Res (List Tok × Bool) :=
-        if st.mixed then .ok (st.tape, true)
-        else
-          match st.tape.getLast?.bind Tok.asScalar with
-          | some _ =>
-            match insertBeforeLast st.tape .mixedContainer with
-            | some tape => .ok (tape, true)
-            | none => .error .panic
-          | none => .error (if offsetOk then .err .syntax else .panic)
-      match pre with
-      | .error r => .done r
-      | .ok (tape, mixed) =>
-        match lexOperator false data with
-        | some (o, r) => .cont { st with tape := tape ++ [.operator o], mixed := mixed } r
-        | none => .done (if offsetOk then .err .syntax else .panic)
+      stepArrayOp (if 0 < origLen - data.length then .err .syntax else .panic) st data
     else
       match parseScalarTok st.tape data with
       | .ok (tape, rest') => .cont { st with tape := tape, state := .arrayValue } rest'
